@@ -14,6 +14,7 @@ PROPS = {
     "C15": {"level": "proof", "assumptions": ["A-py", "A-log", "A-noalias", "A-regex"]},
     "C19": {"level": "proof", "assumptions": ["A-py", "A-regex"]},
     "C09": {"level": "proof", "assumptions": ["A-py", "A-regex", "A-rank"]},
+    "C18": {"level": "proof", "assumptions": ["A-py", "A-regex"]},
 }
 
 TECHNIQUE = "contract-based deductive verification (sidecar pre/postconditions, frames, invariants on the real source; own VC generation; z3/cvc5)"
@@ -32,6 +33,7 @@ _T = {
  "C07": ("range rules: ends as written, ordering guards, 12h / next-day wrap, 0 < length <= 24h; auxiliary inductive invariant on date-less clock ranges", "A-dateutil, A-py." + BR),
  "C08": ("duration rules: amount and unit as written; date + N units by calendar arithmetic; N-days consistency", "A-dateutil, A-regex, A-py." + BR),
  "C09": ("span clause only: rule wrapper and latent post-processing keep an exact span (span-covers-arguments, span-preserved)", "resolution invariance under inert context is relational through regex engine + ranking: not covered (DESIGN 6)."),
+ "C18": ("the real Artifact.__eq__/__hash__ executed on two symbolic values of every pair of kinds: == iff same kind and value (spans free), equal values hash equal; the real __str__/nb_str/from_str/parse_nb_string executed on structured strings: parse(text form) is value-equal; Interval round trip modular over the Time contracts", "A-py (str.format of non-negative ints, int() of digit strings, tuple hashing by value); _TIME_REGEX.match is executed by a small matcher over structured strings (A-regex for the real engine); injectivity of the text form is the logical corollary of the round trip (not a separate obligation); 'every gold string of the bundled dataset' is data, not covered."),
  "C20": ("gluing rules keep the date of the date part and the clock of the clock part, both orders", "A-py." + BR),
  "C12": ("frame obligations: no rule body stores into an object that existed before the call", "A-py, A-noalias; threads / hash seed / set order are not expressible as contracts (not covered)."),
  "C15": ("frame obligations of all rule bodies (a candidate does not change after it was yielded)", "A-py, A-noalias."),
